@@ -219,7 +219,7 @@ class Lane:
         open(ct, "w").write(s)
         # registry crates (polars, ndarray, ...) are identical: seed the lane's target dirs from the real ones
         os.makedirs(os.path.join(self.root, "target"))
-        for d in ("dbg", "dbgpl", "rel", "relpl"):
+        for d in ("dbg", "dbgpl", "rel", "relpl") + (("miri", "asan", "relnh") if self.k >= 20 else ()):
             src = os.path.join(VERIF, "target", d)
             if os.path.isdir(src):
                 sh(["cp", "-a", src, os.path.join(self.root, "target", d)])
